@@ -346,6 +346,26 @@ fn check_server(s: &Srv, out: &mut Out, which: &str) {
         }
     }
     }
+    // ---- C07: the peer's ERROR in the middle of a download ends the transfer at once: nothing more is sent -------------------
+    if want(&["C07"]) {
+    if !s.cfg.read_only && !s.cfg.overwrite && !s.cfg.distinct && !s.cfg.trailing_sep {
+        let c = client();
+        c.send_to(&rrq("hello.bin", vec![opt(OptionType::Timeout, 1)]), s.addr).unwrap();
+        if let Some((Packet::Oack(_), from)) = recv(&c) {
+            c.send_to(&Packet::Ack(0).serialize().unwrap(), from).unwrap();
+            if let Some((Packet::Data { block_num: 1, .. }, _)) = recv(&c) {
+                c.send_to(&Packet::Error { code: ErrorCode::DiskFull, msg: "stop".to_string() }.serialize().unwrap(), from).unwrap();
+                // one time-out (1 s) and a half: a sender that did not see the ERROR retransmits DATA 1 in that time
+                c.set_read_timeout(Some(Duration::from_millis(2500))).unwrap();
+                let mut buf = [0u8; 1024];
+                if let Ok((n, _)) = c.recv_from(&mut buf) {
+                    let what = Packet::deserialize(&buf[..n]).map(|p| verif_replay::fmt_packet(&p)).unwrap_or_else(|_| format!("{n} bytes"));
+                    out.add("C07", s, format!("download of hello.bin (timeout option 1 s): after DATA 1 the peer sent ERROR 3; the server went on and sent {what}"));
+                }
+            }
+        }
+    }
+    }
     // ---- C12: two interleaved transfers stay separate; an endpoint may start another transfer after its first one ------
     if want(&["C12"]) {
     {
